@@ -3,6 +3,8 @@
 (a) nearest, (c) axis: algebra R (A-REAL), every rank 1..4 x axis x qtype, symbolic shapes/values/scales.
 (b) saturation / no wrap, (d) idempotence, (e) monotone: algebra F, bit-precise (fp16 + bf16 quick, fp32 thorough).
 """
+import os
+
 import z3
 
 from qvc import lib, sym
@@ -182,9 +184,10 @@ def finite(x):
 
 def part_F(run):
     FT = 240 if run.tier == "quick" else 1800
-    dtypes = ["float16", "bfloat16"] + (["float32"] if run.tier == "thorough" else [])
+    dtypes = ["float16", "bfloat16", "float32"]
     for qname in ("qint8", "qfloat8_e4m3fn", "qfloat8_e5m2"):
         for dtype in dtypes:
+            light = (dtype == "float32" and run.tier != "thorough")   # quick tier: the per-element clauses only (no IEEE lemma, no second pass)
             inst = {"qtype": qname, "dtype": dtype, "algebra": "F"}
             run.count_instance(**inst)
             E = load(run, intmode="bv", floatmode="F")
@@ -251,6 +254,21 @@ def part_F(run):
                     inrange = z3.fpLEQ(ay, z3.FPVal(float(QMAX[qname]), D))
                     near = z3.Implies(inrange, z3.fpLEQ(z3.fpAbs(z3.fpSub(z3.RNE(), cd_, yd)), bound))
                     run.add(f"C01/F-code-near-quotient[{tag}]/path{pi}", hy, near, "property", inst, replay=rp, timeout=FT)
+                    # (a'') nearest, bit-precisely: no grid value v is closer to fl(x/scale) than the code, up to 4 ulp of the working dtype
+                    # (a relative bound cannot see a tie broken the wrong way, e.g. by an intermediate rounding to a narrower type)
+                    if qname == "qint8":
+                        vg = z3.BitVec("vgrid", 8)
+                        vd_, vh = z3.fpSignedToFP(z3.RNE(), vg, D), []
+                    else:
+                        vg = z3.Const("vgrid", f8)
+                        vd_, vh = z3.fpToFP(z3.RNE(), vg, D), [finite(vg), z3.fpLEQ(z3.fpAbs(vg), qm)]
+                        if "e4m3" in qname:
+                            # the F(5,4) sort is wider than e4m3fn below 2^-6: compare with the normal grid values and zero only
+                            vh.append(z3.Or(z3.fpIsZero(vg), z3.fpGEQ(z3.fpAbs(vg), z3.FPVal(2.0**-6, f8))))
+                    slack = z3.fpAdd(z3.RNE(), z3.fpMul(z3.RNE(), z3.FPVal(4 * eps, D), ay), z3.FPVal(2.0**-60, D))
+                    nearest = z3.Implies(inrange, z3.fpLEQ(z3.fpAbs(z3.fpSub(z3.RNE(), cd_, yd)), z3.fpAdd(z3.RNE(), z3.fpAbs(z3.fpSub(z3.RNE(), vd_, yd)), slack)))
+                    run.add(f"C01/F-code-is-a-nearest-grid-value[{tag}]/path{pi}", hy + vh, nearest, "property", inst, timeout=FT,
+                            replay=lambda m, sd, qn=qname, dt=dtype: replay_nearest_point(m, sd, qn, dt))
                     run.add(f"C01/F-code-on-grid-not-nan[{tag}]/path{pi}", hy, notnan, "property", inst, replay=rp, timeout=FT)
                     run.add(f"C01/F-saturates-high[{tag}]/path{pi}", hy, sat_hi, "property", inst, replay=rp, timeout=FT)
                     run.add(f"C01/F-saturates-low[{tag}]/path{pi}", hy, sat_lo, "property", inst, replay=rp, timeout=FT)
@@ -268,7 +286,10 @@ def part_F(run):
                         le = (lambda a, b: a <= b) if qname == "qint8" else z3.fpLEQ
                         run.add(f"C01/F-monotone-stage[{tag}]/path{pi}", r.hyps + [z3.Not(z3.fpIsNaN(y1)), z3.Not(z3.fpIsNaN(y2)), z3.fpLEQ(y1, y2)],
                                 le(c1s, c2s), "property", inst, replay=rp, timeout=FT)
-                        if qname == "qint8" and dtype == "float16" and run.tier == "quick":
+                        if qname == "qint8" and light:
+                            if "A-IEEE-MONO float32" not in "".join(run.assumptions):
+                                run.assumptions.append("A-IEEE-MONO float32: division by a positive finite divisor is monotone in the dividend; attempted in the thorough tier only")
+                        elif qname == "qint8" and dtype == "float16" and run.tier == "quick":
                             run.assumptions.append("A-IEEE-MONO: float16 division by a positive finite divisor is monotone in the dividend "
                                                    "(correct rounding); attempted by the solvers in the thorough tier only (cvc5 > 150 s); "
                                                    "the bfloat16 instance of the same lemma is discharged in the quick tier")
@@ -281,6 +302,10 @@ def part_F(run):
             # ---- (d) idempotence: float16 and float32 sources only (the property does not claim bfloat16)
             #      + finiteness of the dequantized value (a grid point is finite), split at |x| <= max/2 so that the
             #        known overflow at the very top of the dtype range (known finding) cannot mask anything else
+            if light:
+                if "float32 idempotence" not in "".join(run.not_decided):
+                    run.not_decided.append("float32 idempotence / finiteness of the dequantized value, bit-precise: thorough tier only (the real-arithmetic statement is decided in both tiers)")
+                continue
             prog2 = E.snippet(DRIVER_TWICE_D, SYMQ, extra)
             res2 = E.explore(prog2, setup, name="C01.F.twice")
             run.absorb(E)
@@ -297,6 +322,13 @@ def part_F(run):
                     small = z3.fpLEQ(z3.fpAbs(xf(i)), half_max)
                     run.add(f"C01/F-dequantized-finite-moderate[{tag}]/path{pi}", hy + [small], finite(dq), "property", inst, replay=rp, timeout=FT)
                     run.add(f"C01/F-dequantized-finite-extreme[{tag}]/path{pi}", hy + [z3.Not(small)], finite(dq), "property", inst, replay=rp, timeout=FT)
+                    # the dequantized value is the product scale * code rounded ONCE to the working dtype (so that it lies on the grid
+                    # {scale * v} up to that single rounding): an intermediate narrower type would move it off the grid
+                    pd = {"qint8": "int8", "qfloat8_e4m3fn": "float8_e4m3fn", "qfloat8_e5m2": "float8_e5m2"}[qname]
+                    cw = E.alg.cast(c1, pd, dtype)
+                    prod = z3.fpMul(z3.RNE(), s, cw)
+                    run.add(f"C01/F-dequantized-is-the-correctly-rounded-product[{tag}]/path{pi}", hy, z3.Or(z3.fpEQ(dq, prod), z3.And(z3.fpIsNaN(dq), z3.fpIsNaN(prod))),
+                            "property", inst, timeout=FT, replay=lambda m, sd, qn=qname, dt=dtype: replay_product(m, sd, qn, dt))
                     same = (c1 == c2) if qname == "qint8" else z3.Or(c1 == c2, z3.And(z3.fpIsZero(c1), z3.fpIsZero(c2)))
                     if dtype == "bfloat16":
                         continue
@@ -439,6 +471,64 @@ def replay_F(model, seed, qname, dtype):
                 k = int(diff.nonzero()[0])
                 return {"x": xs[k].item(), "scale": sc.item(), "code": codes[k].item(), "code2": q2._data.to(torch.float32)[k].item(),
                         "what": "requantization changes the code", "qtype": qname, "dtype": dtype}
+    return None
+
+
+def replay_nearest_point(model, seed, qname, dtype):
+    """Replay the solver's counter-model (x, scale) of the nearest-grid-value clause on the real code: is some grid value closer to
+    fl(x/scale) than the produced code (beyond 4 ulp of the working dtype)?  Falls back to the sweep oracle."""
+    import torch
+    from optimum.quanto import qtypes
+    from optimum.quanto.tensor.quantizers import SymmetricQuantizer
+    from qvc.lib import model_values
+
+    eb, sb = sym.FLOAT_DTYPES[dtype]
+    vals = model_values(model, ["X", "S"], eb, sb)
+    dt = {"float16": torch.float16, "bfloat16": torch.bfloat16, "float32": torch.float32}[dtype]
+    qt = qtypes[qname]
+    if qt.is_floating_point:
+        grid = torch.arange(0, 256, dtype=torch.int32).to(torch.uint8).view(qt.dtype).to(torch.float64)
+        grid = grid[torch.isfinite(grid)]
+    else:
+        grid = torch.arange(-128, 128, dtype=torch.float64)
+    if vals.get("X") is not None and vals.get("S") is not None:
+        x = torch.tensor([vals["X"]], dtype=dt)
+        sc = torch.tensor(vals["S"], dtype=dt)
+        if torch.isfinite(x).all() and torch.isfinite(sc) and sc > 0:
+            q = SymmetricQuantizer.apply(x, qt, None, sc)
+            code = q._data.to(torch.float64)
+            y = (x / sc).to(torch.float64)
+            if torch.isfinite(y).all() and y.abs().item() <= QMAX[qname]:
+                best = (grid - y).abs().min()
+                eps = torch.finfo(dt).eps
+                if (code - y).abs().item() > best.item() + 4 * eps * y.abs().item() + 2.0**-60:
+                    return {"x": x.item(), "scale": sc.item(), "quotient": y.item(), "code": code.item(), "closest_grid_value": grid[(grid - y).abs().argmin()].item(),
+                            "qtype": qname, "dtype": dtype, "what": "the code is not a nearest grid value of x/scale"}
+    return replay_F(model, seed, qname, dtype)
+
+
+def replay_product(model, seed, qname, dtype):
+    """dequantize() == scale * code rounded once to the working dtype, per-tensor scales (exhaustive over the codes, several scales)."""
+    import torch
+    from optimum.quanto import qtypes
+    from optimum.quanto.tensor.qbytes import QBytesTensor
+
+    dt = {"float16": torch.float16, "bfloat16": torch.bfloat16, "float32": torch.float32}[dtype]
+    qt = qtypes[qname]
+    codes = torch.arange(0, 256, dtype=torch.int32).to(torch.uint8).view(qt.dtype)
+    if qt.is_floating_point:
+        codes = codes[torch.isfinite(codes.to(torch.float32))]
+    torch.manual_seed(seed)
+    for sv in (0.37, 3e-3, 1.0, 0.0123, 7.77):
+        sc = torch.tensor(sv, dtype=dt)
+        q = QBytesTensor(qt, None, codes.size(), codes.stride(), codes, sc)
+        d = q.dequantize()
+        want = (sc.to(torch.float64) * codes.to(torch.float64)).to(dt)
+        bad = d != want
+        if bad.any():
+            k = int(bad.nonzero()[0])
+            return {"scale": sc.item(), "code": codes[k].to(torch.float32).item(), "dequantized": d[k].item(), "scale_times_code_rounded_once": want[k].item(),
+                    "qtype": qname, "dtype": dtype, "what": "the dequantized value is not scale*code rounded once to the working dtype"}
     return None
 
 
